@@ -343,6 +343,14 @@ func checkMulti(t *Trace, want string, rng *RNG) *Result {
 			// verdict (the property speaks about emitted blocks)
 			res.Probes["interleaved_ticks_differ_only"]++
 		}
+		if t.Tasks[i].World == "decoder" {
+			// the property speaks about the blocks parsers emit; a decoder
+			// bystander that behaves differently is recorded, not a verdict
+			if firstObsDiff(a, b, false) >= 0 {
+				res.Probes["decoder_bystander_differs"]++
+			}
+			continue
+		}
 		if d := firstObsDiff(a, b, false); d >= 0 {
 			res.Viol = &Violation{Prop: "C13", Clause: "interference", Step: d,
 				Msg: fmt.Sprintf("task %d (%s): operation %d observed %q when run alone and %q when interleaved with other instances", i, taskKind(t.Tasks[i]), d, obsAt(a, d), obsAt(b, d))}
